@@ -1509,6 +1509,10 @@ M('C05', 'original defect: qr(pos_diag_R) divides the diagonal of R by its magni
   "            phase = np.where(is_zero, 1.0, r_diag / np.where(is_zero, 1.0, r_abs))", "            phase = r_diag / np.abs(r_diag)",
   'FACT-unit-phase')
 
+M('C12', 'original defect: change_charge re-orders the basis without setting used_sort_charge', 'tenpy/networks/site.py',
+  "            self.used_sort_charge = True  # dense operators in the standard basis need `perm` from now on\n", "",
+  'SITE-perm-flag')
+
 # ---------------------------------------------------------------- C16 / C19
 M('C16', 'GMRES restart: relative residual norm used for normalisation (round-3 seed b)', KRY,
   """        self.total_error.append([npc.norm(self.rs[-1]) / self.b_norm])
